@@ -229,7 +229,7 @@ PROPS = {
         "assumptions": ["the day grouping of journal.Builder (model Builder.ofList) is exercised through the real loader on every case"],
     },
     "C07": {
-        "lean": ["Knut.Properties.C07", "Knut.FactsAgree.TransScanner", "Knut.FactsAgree.TransParser", "Knut.FactsAgree.TransParser2", "Knut.FactsAgree.TransParser3", "Knut.FactsAgree.TransParser4"],
+        "lean": ["Knut.Properties.C07", "Knut.FactsAgree.TransScanner", "Knut.FactsAgree.TransParser", "Knut.FactsAgree.TransParser2", "Knut.FactsAgree.TransParser3", "Knut.FactsAgree.TransParser4", "Knut.Properties.C07Go"],
         "level": "proof",
         "claim": "Lean theorems over a model of lib/syntax/scanner + lib/syntax/parser (one definition per Go method, same call order and error decoration, "
                  "input = any byte string decoded rune by rune as utf8.DecodeRuneInString does): C07_total (tree or error for every input; all loops are "
